@@ -238,6 +238,10 @@ def to_dict_names_unnamed_controls_by_key(repo):
                 return [(Opaque("K"), Opaque("CTRL"))]
             if meth == "values" and not args and "_controls" in rt:
                 return [Opaque("CTRL")]
+            if meth == "keys" and not args and "_controls" in rt:
+                return [Opaque("K")]
+            if name == "zip" and args and all(isinstance(a, (list, tuple)) for a in args) and not kwargs:
+                return [tuple(r) for r in zip(*args)]
             if meth == "to_dict" and rt == "CTRL":
                 return {"name": own, "type": Opaque("T")}
             if isinstance(recv, dict) and not args and meth in ("keys", "values", "items"):
